@@ -851,6 +851,8 @@ type vfC09StateSpec struct {
 }
 
 type vfC09StateFactory struct {
+	// mk, when set, builds the State some other way (C07: through the real InitState from a RawConfig)
+	mk      func(nowNs int64) *State
 	spec    vfC09StateSpec
 	manager usermanager.UserManager
 	nowNs   *int64
@@ -898,6 +900,9 @@ func vfC09Cleanup() {
 // a fresh State per case: fresh replay cache, fresh panel (hand-built: MakeUserPanel would start
 // regularQueueUpload, InitState would start UsedRandomCleaner - neither is wanted here)
 func (f *vfC09StateFactory) fresh(nowNs int64) *State {
+	if f.mk != nil {
+		return f.mk(nowNs)
+	}
 	*f.nowNs = nowNs
 	spec := f.spec
 	var pv [32]byte
